@@ -111,6 +111,10 @@ def implicit_norton(algo, eps=1e-14, theta=0.5, A=8e-67, E=8.2, suffix=""):
     head = ""
     if algo in ("Broyden", "PowellDogLeg_Broyden"):
         head = "@InitJacobian {\n  computeNumericalJacobian(this->jacobian);\n}"
+    if algo in ("Broyden", "PowellDogLeg_Broyden", "NewtonRaphson_NumericalJacobian"):
+        # the default perturbation is 0.1 x @Epsilon, useless with a tight convergence threshold (the reference
+        # numerical-jacobian files set it explicitly as well)
+        head = "@PerturbationValueForNumericalJacobianComputation 1.e-9;\n" + head
     if algo == "Broyden2":
         tangent = TANGENT_CLOSED
     else:
